@@ -303,6 +303,72 @@ def readFlagged (rd : Bytes → Option (Value × Bytes)) (mb : Bytes) : Nat → 
       | none => none
     | none => none
 
+/-- `tlocus`: `struct_repr` (one missing-bit byte, contig, pos), then `Locus(contig, pos, rg)` — its assertions reject `None` -/
+def decLocus (bs : Bytes) : Option (Value × Bytes) :=
+  match bs with
+  | mb :: r =>
+    match (if lookupBit mb 0 then some (Value.na, r) else (readStr r).map fun (s, r) => (Value.str s, r)) with
+    | some (c, r1) =>
+      match (if lookupBit mb 1 then some (Value.na, r1) else (readInt32 r1).map fun (i, r) => (Value.int i, r)) with
+      | some (.int p, r2) => match c with
+        | .str s => some (.locus s p, r2)
+        | _ => none
+      | _ => none
+    | none => none
+  | [] => none
+
+/-- `tinterval`: the four-field struct, then `Interval(start, end, includes_start, includes_end)` — the type check of the two
+flags rejects `None` -/
+def decInterval (dec : Bytes → Option (Value × Bytes)) (bs : Bytes) : Option (Value × Bytes) :=
+  match bs with
+  | mb :: r => match readFlagged dec [mb] 0 2 r with
+    | some ([s, e], r1) =>
+      match (if lookupBit mb 2 then none else readBool r1) with
+      | some (is, r2) => match (if lookupBit mb 3 then none else readBool r2) with
+        | some (ie, r3) => some (.interval s e is ie, r3)
+        | none => none
+      | none => none
+    | _ => none
+  | [] => none
+
+/-- `tarray`: int32 length, ⌈len/8⌉ missing-bit bytes, the present elements (a negative length is outside the model) -/
+def decSeq (dec : Bytes → Option (Value × Bytes)) (bs : Bytes) : Option (List Value × Bytes) :=
+  match readInt32 bs with
+  | some (n, r) =>
+    if n < 0 then none
+    else
+      let nb := (n.toNat + 7) / 8
+      readFlagged dec (r.take nb) 0 n.toNat (r.drop nb)
+  | none => none
+
+/-- one dict entry: the `(key, value)` struct with its missing-bit byte -/
+def decEntry (decK decV : Bytes → Option (Value × Bytes)) (bs : Bytes) : Option ((Value × Value) × Bytes) :=
+  match bs with
+  | mb :: r => match (if lookupBit mb 0 then some (Value.na, r) else decK r) with
+    | some (a, r1) => match (if lookupBit mb 1 then some (Value.na, r1) else decV r1) with
+      | some (b, r2) => some ((a, b), r2)
+      | none => none
+    | none => none
+  | [] => none
+
+/-- `tdict`: int32 length, then that many entries (`range(length)` of a negative length is empty) -/
+def decDict (decK decV : Bytes → Option (Value × Bytes)) (bs : Bytes) : Option (Value × Bytes) :=
+  match readInt32 bs with
+  | some (n, r) =>
+    if n < 0 then some (.dict [], r)
+    else (readMany (decEntry decK decV) n.toNat r).map fun (es, r') => (.dict es, r')
+  | none => none
+
+/-- `tndarray`: `ndim` int64 dimensions, the elements, `np.ndarray(shape, buffer=…, order="F")` -/
+def decNd (dec : Bytes → Option (Value × Bytes)) (n : Nat) (bs : Bytes) : Option (Value × Bytes) :=
+  match readMany readInt64 n bs with
+  | some (dims, r) =>
+    if dims.all (0 ≤ ·) then
+      (readMany dec (prod (dims.map Int.toNat)) r).map fun (xs, r') =>
+        (.nd (dims.map Int.toNat) (fromColMajor (dims.map Int.toNat) xs) true, r')
+    else none
+  | none => none
+
 mutual
 /-- `t._convert_from_encoding(byte_reader)` -/
 def decode : HType → Bytes → Option (Value × Bytes)
@@ -315,65 +381,18 @@ def decode : HType → Bytes → Option (Value × Bytes)
   | .call, bs => match readInt32 bs with
     | some (i, r) => (CallPack.decodeCall i).map fun c => (.call c.alleles c.phased, r)
     | none => none
-  | .locus _, bs => match bs with                       -- struct_repr: one missing-bit byte, contig, pos
-    | mb :: r =>
-      match (if lookupBit mb 0 then some (Value.na, r) else (readStr r).map fun (s, r) => (Value.str s, r)) with
-      | some (c, r1) =>
-        match (if lookupBit mb 1 then some (Value.na, r1) else (readInt32 r1).map fun (i, r) => (Value.int i, r)) with
-        | some (.int p, r2) => match c with
-          | .str s => some (.locus s p, r2)
-          | _ => none                                   -- Locus(None, …): assertion
-        | _ => none
-      | none => none
-    | [] => none
-  | .interval t, bs => match bs with
-    | mb :: r => match readFlagged (decode t) [mb] 0 2 r with
-      | some ([s, e], r1) =>
-        match (if lookupBit mb 2 then none else readBool r1) with      -- Interval(…, includes_start=None): typecheck error
-        | some (is, r2) => match (if lookupBit mb 3 then none else readBool r2) with
-          | some (ie, r3) => some (.interval s e is ie, r3)
-          | none => none
-        | none => none
-      | _ => none
-    | [] => none
-  | .array t, bs => match readInt32 bs with
-    | some (n, r) =>
-      if n < 0 then none
-      else
-        let nb := (n.toNat + 7) / 8
-        (readFlagged (decode t) (r.take nb) 0 n.toNat (r.drop nb)).map fun (xs, r') => (.arr xs, r')
-    | none => none
-  | .set t, bs => match readInt32 bs with
-    | some (n, r) =>
-      if n < 0 then none
-      else
-        let nb := (n.toNat + 7) / 8
-        (readFlagged (decode t) (r.take nb) 0 n.toNat (r.drop nb)).map fun (xs, r') => (.set xs, r')
-    | none => none
-  | .dict k v, bs => match readInt32 bs with
-    | some (n, r) =>
-      if n < 0 then some (.dict [], r)                  -- `range(length)` of a negative length is empty
-      else (readMany (fun bs => match bs with
-        | mb :: r => match (if lookupBit mb 0 then some (Value.na, r) else decode k r) with
-          | some (a, r1) => match (if lookupBit mb 1 then some (Value.na, r1) else decode v r1) with
-            | some (b, r2) => some ((a, b), r2)
-            | none => none
-          | none => none
-        | [] => none) n.toNat r).map fun (es, r') => (.dict es, r')
-    | none => none
+  | .locus _, bs => decLocus bs
+  | .interval t, bs => decInterval (decode t) bs
+  | .array t, bs => (decSeq (decode t) bs).map fun (xs, r) => (.arr xs, r)
+  | .set t, bs => (decSeq (decode t) bs).map fun (xs, r) => (.set xs, r)
+  | .dict k v, bs => decDict (decode k) (decode v) bs
   | .struct fs, bs =>
     let nb := (fs.length + 7) / 8
     (decodeFields fs (bs.take nb) 0 (bs.drop nb)).map fun (xs, r) => (.struct xs, r)
   | .tuple ts, bs =>
     let nb := (ts.length + 7) / 8
     (decodeTuple ts (bs.take nb) 0 (bs.drop nb)).map fun (xs, r) => (.tup xs, r)
-  | .ndarray t n, bs => match readMany readInt64 n bs with
-    | some (dims, r) =>
-      if dims.all (0 ≤ ·) then
-        let shape := dims.map Int.toNat
-        (readMany (decode t) (prod shape) r).map fun (xs, r') => (.nd shape (fromColMajor shape xs) true, r')
-      else none
-    | none => none
+  | .ndarray t n, bs => decNd (decode t) n bs
   | _, _ => none
 def decodeFields : List (Str × HType) → Bytes → Nat → Bytes → Option (List Value × Bytes)
   | [], _, _, bs => some ([], bs)
